@@ -211,6 +211,94 @@ pub fn run(data: &[u8], ctx: &mut Ctx) -> Outcome {
     if src.chance(44) {
         return signed_consequence(ctx, &mut src, &e, &m);
     }
+    if src.chance(36) {
+        return proof_consequence(ctx, &mut src, &e, &m);
+    }
+    if src.chance(36) {
+        return recipient_consequence(ctx, &mut src, &e, &m);
+    }
+    Outcome::Pass
+}
+
+/// "... proofs ... stay valid": the original and the transformed envelope have the same digests, so an
+/// inclusion proof for an element still present (visible or obscured) in the transformed envelope can be
+/// produced from either of them and is confirmed by the other.
+fn proof_consequence(ctx: &mut Ctx, src: &mut Src, e: &Envelope, m: &M) -> Outcome {
+    let t = gen::gen_targets(src, m, false);
+    let action = gen_obs(src);
+    let r = nopanic!(ctx, apply_elide(e, &t, false, action, 0), "proof", "C02/proof/transform");
+    let rm = tryp!(ctx, nopanic!(ctx, check_digests(&r), "proof", "C02/proof/transform"), "proof", "C02/proof/transform");
+    let els = rm.elements();
+    let x = els[src.below(els.len())];
+    let d = dig(&x.digest());
+    ctx.class(&format!("proof:target-{}", if x.is_obscured() { "obscured" } else { "visible" }));
+    let p0 = nopanic!(ctx, e.proof_contains_target(&d), "proof", "C02/proof/from-original");
+    let Some(p0) = p0 else {
+        check!(ctx, false, "proof", "C02/proof/from-original", "no proof from the original for an element of it: {} in {}", x.show(), m.show());
+        return Outcome::Pass;
+    };
+    let ok = nopanic!(ctx, r.confirm_contains_target(&d, &p0), "proof", "C02/proof/from-original");
+    check!(ctx, ok, "proof", "C02/proof/from-original", "a proof made from the original is not confirmed by the transformed envelope (same root digest)");
+    let p1 = nopanic!(ctx, r.proof_contains_target(&d), "proof", "C02/proof/from-transformed");
+    let Some(p1) = p1 else {
+        check!(ctx, false, "proof", "C02/proof/from-transformed", "the transformed envelope {} yields no proof for {} ({:?}), an element still present in it; the original does", rm.show(), x.show(), x.kind());
+        return Outcome::Pass;
+    };
+    let ok = nopanic!(ctx, e.confirm_contains_target(&d, &p1), "proof", "C02/proof/from-transformed");
+    check!(ctx, ok, "proof", "C02/proof/from-transformed", "a proof made from the transformed envelope is not confirmed by the original");
+    ctx.fingerprint(&[0x52, action as u8]);
+    ctx.fingerprint(&x.digest());
+    if rm.tagged() != m.tagged() {
+        ctx.nontrivial = true;
+    }
+    Outcome::Pass
+}
+
+/// The same for recipients: after the subject was encrypted to several recipients, obscuring the sealed
+/// message of one of them (any action) takes away nothing from the others.
+fn recipient_consequence(ctx: &mut Ctx, src: &mut Src, e: &Envelope, m: &M) -> Outcome {
+    let has_recipient = M::Known(5).digest();
+    if m.is_obscured() || matches!(m.subject(), M::Encrypted(..) | M::Elided(_)) || m.assertions().iter().any(|a| matches!(a.subject(), M::Assertion(p, _) if p.digest() == has_recipient)) {
+        return Outcome::Pass;
+    }
+    let pool = crate::keys::core_pool();
+    let n = 2 + src.below(3);
+    let mut ks: Vec<usize> = Vec::new();
+    while ks.len() < n {
+        let mut i = src.below(pool.enc.len());
+        while ks.contains(&i) {
+            i = (i + 1) % pool.enc.len();
+        }
+        ks.push(i);
+    }
+    let recips: Vec<&dyn bc_components::Encrypter> = ks.iter().map(|i| &pool.enc[*i].public as &dyn bc_components::Encrypter).collect();
+    let enc = nopanic!(ctx, e.encrypt_subject_to_recipients(&recips).map_err(|x| x.to_string()), "recipients", "C02/recipients/encrypt");
+    let enc = tryp!(ctx, enc, "recipients", "C02/recipients/encrypt");
+    let em = tryp!(ctx, bridge::read_out(&enc), "recipients", "C02/recipients/encrypt");
+    let sealed: Vec<&M> = em.assertions().iter().filter(|a| matches!(a, M::Assertion(p, _) if p.digest() == has_recipient)).collect();
+    check!(ctx, sealed.len() == n, "recipients", "C02/recipients/encrypt", "{} recipients, {} 'hasRecipient' assertions", n, sealed.len());
+    // the victim: one sealed message (the assertion's object), or the whole assertion
+    let v = sealed[src.below(sealed.len())];
+    let whole = src.chance(60);
+    let vd = if whole { v.digest() } else { v.children()[1].digest() };
+    let action = gen_obs(src);
+    let mut t = BTreeSet::new();
+    t.insert(vd);
+    let r = nopanic!(ctx, apply_elide(&enc, &t, false, action, src.below(7)), "recipients", "C02/recipients/transform");
+    check!(ctx, d32(&r.digest()) == em.digest(), "recipients", "C02/recipients/transform", "obscuring a sealed message changed the root digest");
+    ctx.class(&format!("recipients:{}:{:?}", if whole { "assertion" } else { "sealed-message" }, action));
+    let want = m.subject().digest();
+    let mut opened = 0;
+    for &i in &ks {
+        let got = nopanic!(ctx, r.decrypt_subject_to_recipient(&pool.enc[i].private).map(|x| d32(&x.subject().digest())).map_err(|x| x.to_string()), "recipients", "C02/recipients/decrypt");
+        if let Ok(dg) = got {
+            check!(ctx, dg == want, "recipients", "C02/recipients/decrypt", "a recipient decrypted to another subject");
+            opened += 1;
+        }
+    }
+    check!(ctx, opened >= n - 1, "recipients", "C02/recipients/decrypt", "one of {} sealed messages was obscured ({:?}), no digest changed, yet only {} recipients can still open the envelope: {}", n, action, opened, bridge::read_out(&r).map(|x| x.show()).unwrap_or_default());
+    ctx.fingerprint(&[0x53, action as u8, whole as u8]);
+    ctx.nontrivial = true;
     Outcome::Pass
 }
 
